@@ -1,7 +1,7 @@
 (* C06 — Type-level metadata is exact and sufficient for sizing key buffers.
    Only pinned statements, [exact] proofs and [Print Assumptions]. *)
 From Coq Require Import List NArith ZArith.
-From MC Require Import Str Packed Tree Tree_proofs NoPanic Meta_proofs.
+From MC Require Import Str Packed Tree Tree_proofs NoPanic Transcode_proofs Meta_proofs Names_proofs Bound_proofs.
 Import ListNotations.
 Local Open Scope N_scope.
 
@@ -38,6 +38,21 @@ Example C06_ex : wf ex_t /\ metadata ex_t = {| m_count := 3; m_depth := 2; m_len
   stats ex_t = [(1, 3, 1); (2, 4, 2); (2, 4, 2)].
 Proof. repeat split; try discriminate; reflexivity. Qed.
 
+(* buffers sized from the metadata suffice: whatever key source is used and whatever node it reaches
+   (or fails at), the callback is invoked at most max_depth times and the names / decimal indices it
+   is given sum up to at most max_length bytes *)
+Theorem C06_path_bound : forall t k pre r calls, wf t -> trav nofail t k pre = (r, calls) ->
+  exists new, calls = new ++ pre /\ N.of_nat (length new) <= m_depth (metadata t) /\ csum new <= m_length (metadata t).
+Proof. exact path_bound. Qed.
+Theorem C06_itoa_bytes : forall i, i < 18446744073709551616 -> str_bytes (itoa i) = digits i.
+Proof. exact itoa_bytes. Qed.
+(* so a Path written for any node fits Metadata::max_length(separator) bytes *)
+Theorem C06_path_buffer_suffices : forall sep t k r calls, wf t -> small t -> trav nofail t k [] = (r, calls) ->
+  Forall (fun c : call => fst (fst c) < 18446744073709551616) calls ->
+  N.of_nat (wsum (concat (map (call_text_path sep) (rev calls)))) <=
+  m_length (metadata t) + m_depth (metadata t) * N.of_nat (utf8_len sep).
+Proof. exact path_buffer_suffices. Qed.
+
 Print Assumptions C06_meta_exact.
 Print Assumptions C06_count_exact.
 Print Assumptions C06_depth_attained.
@@ -45,3 +60,6 @@ Print Assumptions C06_length_attained.
 Print Assumptions C06_bits_attained.
 Print Assumptions C06_metadata_is_walk.
 Print Assumptions C06_skeleton_is_walk.
+Print Assumptions C06_path_bound.
+Print Assumptions C06_itoa_bytes.
+Print Assumptions C06_path_buffer_suffices.
